@@ -130,3 +130,19 @@ def run(chk: core.Check, pid: str, backend: str | None = None, quick_models: int
                 "expected": recs[0]["cases"][0]["expect"]})
     report(chk, pid, bad, prof["tags"], backend)
     return stats
+
+
+def run_batch(chk: core.Check, pid: str):
+    """C14: structural models, every function called once with all input points as columns."""
+    r1 = run_tlc_struct(chk, ["C01_RhsRefinesDen", "C04_MonitorRefinesDen"], 1, 37 if chk.tier == "quick" else 7)
+    chk.add_tlc(r1)
+    recs = r1.records
+    r1.records = []
+    if not recs:
+        raise core.MachineryFailure("MC_Struct emitted no model")
+    stats, bad = modelcase.replay_model_cases_batch(recs, chk.nproc)
+    chk.replayed += stats["models"]
+    chk.extra.setdefault("structural_corpus_batch", []).append({**stats, "mismatch_records": len(bad)})
+    for b in bad:
+        sig = f"{pid}:numpy-batch:{b['tag']}:{b.get('fn', '')}:model={model_sig(b.get('text', ''))}"
+        chk.violation(sig, b, f"vectorised {b.get('fn')}: " + str({k: v for k, v in b.items() if k not in ('text',)})[:260])
